@@ -506,10 +506,8 @@ func c17Pairing(a *An, kf *kqFacts) {
 			}
 			kp := stripIDs(v.Ctx.path(args[1]))
 			key := sprintf("%s:delete-fd(%s)", root.Name(), tail(stripCallArgs(kp), 50))
-			if seen[key] {
-				continue
-			}
-			seen[key] = true
+			// every delete site is judged (two calls of the table helper with the same key are two sites); sites that
+			// hold are reported once per key
 			okc, how := false, "no close(2) of this descriptor in this calling context"
 			for _, c := range closes {
 				call := c.Instr.(*ssa.Call)
@@ -528,6 +526,10 @@ func c17Pairing(a *An, kf *kqFacts) {
 					}
 				}
 			}
+			if okc && seen[key] {
+				continue
+			}
+			seen[key] = true
 			a.R.ob("C17.2", key, "a descriptor leaves the table only together with close(2) on it", a.P.instrPos(v.Instr), okc, how)
 		}
 	}
@@ -827,6 +829,74 @@ func c17WatchList(a *An, kf *kqFacts) {
 						delOK = false
 					}
 				}
+			}
+		}
+	}
+	// every descriptor entered into the descriptor table is also entered into the by-directory index (the map of maps
+	// that Remove(dir) walks to find the entries of a directory): otherwise removing the directory leaves them open
+	var dirIndex *types.Var
+	for _, t := range ro.Tables {
+		if m, ok := t.Type().Underlying().(*types.Map); ok {
+			if _, inner := m.Elem().Underlying().(*types.Map); inner {
+				dirIndex = t
+			}
+		}
+	}
+	if dirIndex != nil {
+		innerT := dirIndex.Type().Underlying().(*types.Map).Elem()
+		for _, root := range []*ssa.Function{ro.API["AddWith"]} {
+			if root == nil {
+				continue
+			}
+			rw := a.walk(root)
+			n := 0
+			for _, u := range rw.Visits {
+				mu, ok := u.Instr.(*ssa.MapUpdate)
+				if !ok || u.Ctx.fieldOfValue(mu.Map) != kf.fdTable {
+					continue
+				}
+				n++
+				if n > 1 {
+					break // one site is enough to state the rule; the helper is shared by all calling contexts
+				}
+				fdKey := stripIDs(u.Ctx.path(mu.Key))
+				indexed := dnfFalse()
+				for _, m := range rw.Visits {
+					m2, ok := m.Instr.(*ssa.MapUpdate)
+					if !ok || !types.Identical(m2.Map.Type().Underlying(), innerT.Underlying()) {
+						continue
+					}
+					// within the same activation of the backend method that adds the watch (the table helpers it calls may be
+					// split in any way)
+					scope := u.Ctx
+					for x := u.Ctx; x != nil; x = x.Parent {
+						if rcv := x.Fn.Signature.Recv(); rcv != nil && deref(rcv.Type()) == types.Type(ro.Backend) {
+							scope = x
+							break
+						}
+					}
+					within := false
+					for x := m.Ctx; x != nil; x = x.Parent {
+						if x == scope {
+							within = true
+						}
+					}
+					if !within {
+						continue
+					}
+					if stripIDs(m.Ctx.path(m2.Key)) == fdKey {
+						indexed = indexed.or(m.Cond)
+					}
+				}
+				h, ctr, err := implies(u.Cond, indexed)
+				if err != nil {
+					a.R.fail("%v", err)
+				}
+				wit := "the descriptor is entered into " + fieldStr(ro, dirIndex) + " under the same condition"
+				if !h {
+					wit = "not entered into " + fieldStr(ro, dirIndex) + " when " + stripIDs(ctr)
+				}
+				a.R.ob("C17.2", "add:indexed-by-directory", "a descriptor entered into the descriptor table is also entered into the by-directory index that the removal of a directory walks", a.P.instrPos(mu), h, wit)
 			}
 		}
 	}
